@@ -15,7 +15,7 @@ Import ListNotations.
    bound by plain `import pkg.sub` statements: the checkers of those imports - F16 repair) *)
 Inductive entry := Plain | Chk (cid : nat) | Pfx (cids : list nat).
 Definition dict := list (dotted * entry).        (* Python dict: insertion-ordered, unique keys *)
-Inductive skind := KNormal | KClass.             (* dict | _ClassScope *)
+Inductive skind := KNormal | KClass | KClone.    (* dict | _ClassScope | the copy made by ScopeStack.clone_top (never entered or left) *)
 
 Record checker := mkChecker { c_imp : import; c_line : nat; c_used : bool }.
 (* (lineno, DottedIdentifier(name, scope_info)): scope_info = is the finder's current stack top a
@@ -72,7 +72,7 @@ Fixpoint set_scope (l : list (nat * (skind * dict))) (i : nat) (v : skind * dict
   end.
 Definition scope_dict (s : st) (i : nat) : dict := snd (get_scope (scopes s) i).
 Definition scope_is_class (s : st) (i : nat) : bool :=
-  match fst (get_scope (scopes s) i) with KClass => true | KNormal => false end.
+  match fst (get_scope (scopes s) i) with KClass => true | _ => false end.
 
 Definition new_scope (s : st) (k : skind) (content : dict) : nat * st :=
   let i := next_id s in
@@ -159,12 +159,16 @@ Definition report_unused_of (s : st) (d : dict) : st :=
                                     if c_used ck then s else with_unused s (unused s ++ [(c_line ck, c_imp ck)])
                          | _ => s
                          end) d s.
-Definition pop (s : st) (i : nat) : st := report_unused_of s (scope_dict s i).
+(* repaired (fixes/C05a): the scope that is left is only queued; its unused imports are reported by
+   _finish_deferred_load_checks, after the deferred loads (of nested functions defined earlier) have marked what they use.
+   The queue is not stored: when the checks run, every scope entered since is left again, so the queued scopes are the
+   scopes created after the scanned node's own top scope, copies made by clone_top excepted ([pending_dicts]). *)
+Definition pop (s : st) (i : nat) : st := s.
 
 (* scopes[-1] = copy.copy(scopes[-1]); the other scopes stay aliased *)
 Definition clone_top (s : st) (stk : stack) : stack * st :=
   let '(c, d) := get_scope (scopes s) (top stk) in
-  let '(j, s') := new_scope s c d in
+  let '(j, s') := new_scope s KClone d in
   (removelast stk ++ [j], s').
 
 (* ---------- loads and stores ---------- *)
@@ -426,8 +430,14 @@ Definition init_state (bi : list name) (ns : list (list name)) : stack * st :=
   push s1 ids false false false.
 
 (* _finish_deferred_load_checks *)
+Definition is_clone (k : skind) : bool := match k with KClone => true | _ => false end.
+Definition pending_dicts (s : st) (after : nat) : list dict :=
+  map (fun x : nat * (skind * dict) => snd (snd x))
+      (filter (fun x : nat * (skind * dict) => Nat.ltb after (fst x) && negb (is_clone (fst (snd x)))) (scopes s)).
 Definition finish_deferred (cur : stack) (s : st) : st :=
-  with_deferred (fold_left (fun s d => let '(n, stk, ln) := d in check_load s cur stk n ln) (deferred s) s) [].
+  let s1 := fold_left (fun s d => let '(n, stk, ln) := d in check_load s cur stk n ln) (deferred s) s in
+  let s2 := fold_left report_unused_of (pending_dicts s1 (top cur)) s1 in
+  with_deferred s2 [].
 
 (* _scan_node on a Module *)
 Definition scan_node (track : bool) (p : program) (stk : stack) (s : st) : st :=
@@ -461,7 +471,7 @@ Fixpoint dedup_sorted (l : list dotted) : list dotted :=
   end.
 
 (* _scan_unused_imports: the still-unused checkers of the private top scope, then sort *)
-Definition scan_unused (stk : stack) (s : st) : st := pop s (top stk).
+Definition scan_unused (stk : stack) (s : st) : st := report_unused_of s (scope_dict s (top stk)).
 
 (* the (missing, unused) pair of _MissingImportFinder.scan_for_import_issues (parse_docstrings=False);
    with track=false the unused list stays empty (Python: None) *)
